@@ -39,9 +39,11 @@ NAME_WORDS = ["UNIQUE", "PRIMARY", "KEY", "FOREIGN", "CHECK", "CONSTRAINT", "IND
               "TIMESTAMP", "ARRAY", "IS", "IN", "AND", "x7", "Abc"]
 
 
-def gen_ddl_tables():
+def gen_ddl_tables(tr=None):
     """coq/gen/DdlTables.v from `prattx ddltables` (run on the current /repo crate)."""
     t = run_bin(PKG, ["ddltables"], pkg=PKG)[0]
+    if tr is None:
+        tr = C18.gen_tables()           # coq/gen/DataTypeTables.v (the records below refer to it) from the current source
     v = ["(* GENERATED on every run by lib/props/c01ddl.py from the running /repo crate (harness/prattx ddltables):",
          "   keywords::RESERVED_FOR_COLUMN_ALIAS by name and the per-dialect switches of coq/theories/DdlCore.v",
          "   (supports_trailing_commas, supports_asc_desc_in_column_definition: trait method, cross-checked by a probe). *)",
@@ -62,7 +64,7 @@ def gen_ddl_tables():
     v += ["", "(* the dialects whose CREATE TABLE goes through Parser::parse_create *)",
           "Definition all_ddialects : list ddialect := [%s]." % "; ".join("dd_" + d for d in MODEL_DIALECTS)]
     write_if_changed(os.path.join(GEN, "DdlTables.v"), "\n".join(v) + "\n")
-    return {"flags": flags, "flag_probe_mismatch": mism, "reserved_col": t["reserved_for_column_alias"]}
+    return {"flags": flags, "flag_probe_mismatch": mism, "reserved_col": t["reserved_for_column_alias"], "dt_tables": tr}
 
 
 # ------------------------------------------------------------------ case generation
@@ -271,6 +273,7 @@ DIRECTED = [
     "CREATE TABLE x1 (x2 INT) PARTITION BY x2", "CREATE TABLE x1 (x2 INT) ON COMMIT DROP", "CREATE TABLE x1 (x2 INT) DEFAULT CHARSET = x3", "CREATE TABLE x1 (x2 INT) COLLATE = x3", "CREATE TABLE x1 (x2 INT) AUTO_INCREMENT = 3",
     "CREATE TABLE x1 (x2 INT) x3", "CREATE TABLE x1 (x2 INT))", "CREATE TABLE x1 (x2 INT) ,", "CREATE TABLE x1 (x2 INT) (x3 INT)", "CREATE TABLE x1 (x2 INT); CREATE TABLE x3 (x4 INT)",
     "CREATE", "CREATE TABLE", "CREATE OR REPLACE", "CREATE VIEW x1 AS SELECT 1", "CREATE INDEX x1 ON x2 (x3)", "CREATE EXTERNAL TABLE x1 (x2 INT) STORED AS TEXTFILE", "SELECT 1", "DROP TABLE x1",
+    "CREATE TABLE x1 (x2 ARRAY< ARRAY< ARRAY< INT > > > NOT NULL)", "CREATE TABLE x1 (x2 ARRAY<ARRAY<ARRAY<INT>>>)",
     "CREATE TABLE x1 (x2 ARRAY<ARRAY<INT>> NOT NULL)", "CREATE TABLE x1 (x2 ARRAY<ARRAY<INT>>, x3 INT)", "CREATE TABLE x1 (x2 ARRAY<ARRAY<INT>>[] DEFAULT x3 >> 1)", "CREATE TABLE x1 (x2 ARRAY<INT> DEFAULT x3 > x4)",
     "CREATE TABLE x1 (x2 INT DEFAULT x3 > > x4)", "CREATE TABLE x1 (x2 STRUCT<x3 ARRAY<INT>>)", "CREATE TABLE x1 (x2 INT[], x3 INT[3][], x4 TEXT [ ])", "CREATE TABLE x1 (x2 INT(11) UNSIGNED NOT NULL)",
     "CREATE TABLE x1 (x2 DECIMAL(10, 2) DEFAULT 1, x3 NUMERIC(5), x4 VARCHAR(10 CHARACTERS), x5 CHARACTER VARYING(3))", "CREATE TABLE x1 (x2 TIMESTAMP(3) WITH TIME ZONE NOT NULL, x3 TIME WITHOUT TIME ZONE, x4 TIMESTAMPTZ)",
@@ -291,41 +294,40 @@ def ddl_cases(run, T, sh):
     for d in C04.DIALECTS:
         g = Gen(rng, epool[d], tpool)
         # (i) every data type of the pool in a column, followed by the end of the list / an option / another column
-        leaves = tpool["leaves"] if thorough else rng.sample(tpool["leaves"], min(36, len(tpool["leaves"])))
+        leaves = tpool["leaves"] if thorough else rng.sample(tpool["leaves"], min(20, len(tpool["leaves"])))
         for t in leaves + tpool["base"]:
             add(d, "CREATE TABLE x1 (x2 %s)" % t, "types")
             add(d, "CREATE TABLE x1 (x2 %s %s, x3 %s)" % (t, g.optdef(), t), "types")
-        for t in (tpool["nested"] if thorough else rng.sample(tpool["nested"], min(40, len(tpool["nested"])))):
+        for t in (tpool["nested"] if thorough else rng.sample(tpool["nested"], min(30, len(tpool["nested"])))):
             add(d, "CREATE TABLE x1 (x2 %s%s)" % (t, rng.choice(["", " NOT NULL", ", x3 INT", " DEFAULT x4"])), "types")
         # (ii) every option, every ordered pair of options (named and not), longer sequences sampled
         for a in OPT_KINDS:
             add(d, "CREATE TABLE x1 (x2 INT %s)" % g.option(a), "options")
             add(d, "CREATE TABLE x1 (x2 INT CONSTRAINT x3 %s, x4 TEXT)" % g.option(a), "options")
-            for b in OPT_KINDS:
+            for b in (OPT_KINDS if thorough else rng.sample(OPT_KINDS, 5)):
                 add(d, "CREATE TABLE x1 (x2 INT %s %s)" % (g.option(a), g.optdef(b)), "options")
-        for _ in range(300 if thorough else 30):
+        for _ in range(300 if thorough else 20):
             add(d, "CREATE TABLE x1 (%s)" % g.column(rng.choice([3, 4, 5])), "options")
         # (iii) every word of the list in every name position
-        for w in (NAME_WORDS if thorough else NAME_WORDS[:9] + rng.sample(NAME_WORDS[9:], 5)):
-            add(d, "CREATE TABLE %s (x2 INT)" % w, "names")
-            add(d, "CREATE TABLE x1.%s (x2 INT)" % w, "names")
-            add(d, "CREATE TABLE x1 (%s INT)" % w, "names")
-            add(d, "CREATE TABLE x1 (x2 INT, %s TEXT NOT NULL)" % w, "names")
-            add(d, "CREATE TABLE x1 (x2 INT CONSTRAINT %s UNIQUE)" % w, "names")
-            add(d, "CREATE TABLE x1 (x2 INT REFERENCES %s (%s))" % (w, w), "names")
-            add(d, "CREATE TABLE x1 (x2 INT REFERENCES %s, x3 INT)" % w, "names")
-            add(d, "CREATE TABLE x1 (x2 INT, CONSTRAINT %s PRIMARY KEY (x2, %s))" % (w, w), "names")
-            add(d, "CREATE TABLE x1 (x2 INT, UNIQUE (%s), FOREIGN KEY (%s, x2) REFERENCES %s (x3, %s))" % (w, w, w, w), "names")
-            add(d, "CREATE TABLE x1 (x2 %s)" % w, "names")
+        for w in (NAME_WORDS if thorough else NAME_WORDS[:9] + rng.sample(NAME_WORDS[9:], 3)):
+            tmpl = ["CREATE TABLE %s (x2 INT)" % w, "CREATE TABLE x1.%s (x2 INT)" % w, "CREATE TABLE x1 (%s INT)" % w,
+                    "CREATE TABLE x1 (x2 INT, %s TEXT NOT NULL)" % w, "CREATE TABLE x1 (x2 INT CONSTRAINT %s UNIQUE)" % w,
+                    "CREATE TABLE x1 (x2 INT REFERENCES %s (%s))" % (w, w), "CREATE TABLE x1 (x2 INT REFERENCES %s, x3 INT)" % w,
+                    "CREATE TABLE x1 (x2 INT, CONSTRAINT %s PRIMARY KEY (x2, %s))" % (w, w),
+                    "CREATE TABLE x1 (x2 INT, UNIQUE (%s), FOREIGN KEY (%s, x2) REFERENCES %s (x3, %s))" % (w, w, w, w),
+                    "CREATE TABLE x1 (x2 %s)" % w]
+            for t in (tmpl if thorough else tmpl[2:4] + rng.sample(tmpl[:2] + tmpl[4:], 4)):
+                add(d, t, "names")
         # (iv) directed texts: ends of lists, clause orders, keyword look-aheads, things outside the fragment
-        for s in DIRECTED:
+        few = (not thorough) and d in ("ansi", "databricks", "redshift", "snowflake")      # no dialect-specific branch of their own here
+        for s in (rng.sample(DIRECTED, len(DIRECTED) // 4) if few else DIRECTED):
             add(d, s, "directed")
         # (v) every table-constraint kind alone, with columns, in both orders; random tables and their mutations
         for k in ["primary", "unique", "check", "foreign"]:
             add(d, "CREATE TABLE x1 (%s)" % g.constraint(k), "constraints")
             add(d, "CREATE TABLE x1 (x2 INT, %s)" % g.constraint(k), "constraints")
             add(d, "CREATE TABLE x1 (%s, x2 INT, %s)" % (g.constraint(k), g.constraint()), "constraints")
-        n = 700 if thorough else 70
+        n = 700 if thorough else 45
         for _ in range(n):
             t = g.table(mix=rng.random() < 0.15)
             add(d, t + rng.choice(["", "", "", ";"]), "random")
@@ -368,6 +370,9 @@ class DEnc(C04.Enc):
     def dtok(self, t):
         k = t[0]
         if k == "w":
+            up = t[1].upper()
+            if t[1] != up and (up in C04.KW or up in ("AND", "OR", "XOR")):
+                return "TT (DT.TOther 0)"      # a keyword of the expression alphabet in another spelling: outside the alphabet
             if re.fullmatch(r"[A-Za-z_][A-Za-z0-9_]*", t[1]):
                 return 'TW "%s"' % t[1]
             return "TT (DT.TWord %s)" % coq_str(t[1])
@@ -499,9 +504,19 @@ def encode_case(T, sh, c, r):
     return "(dd_%s, %s, %s)" % (d, ts, impl)
 
 
+def pg_triple_gt(c, rs):
+    """C18's class angle-close:pg-triple-gt seen through CREATE TABLE: PostgreSQL lexes the `>>>` that closes three
+    nested angle-bracket types (printed without blanks) as one custom operator token."""
+    if c["dialect"] == "postgresql" and isinstance(rs, dict) and ">>>" in (rs.get("text") or ""):
+        return "angle-close:pg-triple-gt"
+    return None
+
+
 CHECK_FN = "(fun c => match c with (d, ts, i) => dcase_full d ts i end)"
 CASE_TYPE = "(ddialect * list dtok * dires)"
 BITS = {1: "model-parser-vs-parse_sql", 2: "dtoks-vs-printed-tokens", 4: "model-roundtrip", 16: "dwf-of-accepted-tree"}
+# counted, not errors: 32 = the printed tokens fail the syntactic fragment test dfrag; 64 = a column type outside the proved
+# part of the C18 round trip (STRUCT, MAP, ENUM, custom types ..): the theorem says nothing about these trees
 
 
 def check_ddl(run, prop="C01", tables=None):
@@ -513,8 +528,7 @@ def check_ddl(run, prop="C01", tables=None):
     if tables["flag_probe_mismatch"]:
         note["flag_probe_mismatch"] = tables["flag_probe_mismatch"]
     T = C04.gen_tables(run)
-    tr = C18.gen_tables(run)                # coq/gen/DataTypeTables.v from the current source
-    sh = C18.Shapes(tr)
+    sh = C18.Shapes(tables["dt_tables"])
     ok, out = coq_make(["theories/DdlCoreProofs.vo", "gen/DdlTables.vo"])
     if not ok:
         run.violation({"what": "the DDL-core model does not build", "unchecked": "DdlCore correspondence",
@@ -553,7 +567,7 @@ def check_ddl(run, prop="C01", tables=None):
                 good = again.get("same") is True and again.get("text2") == rs["text"]
                 if not good:
                     stats["impl_roundtrip_fail"] += 1
-                    report("impl-roundtrip", {"what": "an accepted CREATE TABLE does not survive parse -> print -> parse", "dialect": c["dialect"],
+                    report(pg_triple_gt(c, rs) or "impl-roundtrip", {"what": "an accepted CREATE TABLE does not survive parse -> print -> parse", "dialect": c["dialect"],
                                               "input": c["sql"], "printed": rs["text"],
                                               "reparse": {k: again.get(k) for k in ("same", "err", "tokerr", "panic", "text2", "n")}})
         elif "tokerr" not in rs:
@@ -575,6 +589,12 @@ def check_ddl(run, prop="C01", tables=None):
         stats["streams"][c["stream"]]["compared"] += 1
         for b, name in BITS.items():
             if cd & b:
+                k3 = pg_triple_gt(c, r["result"]) if b in (2, 4) else None
+                if k3:
+                    # the printed text is not lexed into the type's own tokens: the implementation-side class above, not a model matter
+                    stats["model_mismatch_in_known_class"] = stats.get("model_mismatch_in_known_class", 0) + 1
+                    report(k3, {"what": "printed `>>>` is one token in PostgreSQL", "dialect": c["dialect"], "input": c["sql"]})
+                    continue
                 cnt[name] += 1
                 report("model:" + name, {"what": "DDL-core model check failed: " + name, "unchecked": "correspondence DdlCore (" + name + ")",
                                          "dialect": c["dialect"], "input": c["sql"], "observed": r["result"].get("text") or r["result"],
@@ -584,7 +604,8 @@ def check_ddl(run, prop="C01", tables=None):
     stats["accepted_in_fragment"] = sum(1 for i, cd in zip(idx, codes) if not cd & 8 and "ok" in res[i]["result"])
     stats["rejected_in_fragment"] = sum(1 for i, cd in zip(idx, codes) if not cd & 8 and "ok" not in res[i]["result"])
     stats["outside_syntactic_fragment_test"] = sum(1 for cd in codes if cd & 32 and not cd & 8)
-    stats["theorem_instances"] = sum(1 for i, cd in zip(idx, codes) if not cd & (8 | 16 | 32) and "ok" in res[i]["result"])
+    stats["types_outside_proved_part"] = sum(1 for cd in codes if cd & 64 and not cd & 8)
+    stats["theorem_instances"] = sum(1 for i, cd in zip(idx, codes) if not cd & (8 | 16 | 32 | 64) and "ok" in res[i]["result"])
     stats["alignment_failures"] = sum(1 for c in cases if "align_error" in c)
     stats["model_checks_failed"] = cnt
     stats["disagreements"] = sum(cnt.values())
